@@ -295,6 +295,7 @@ func checkC05(p *Program, r *Report) {
 	c05Cache(p, r, m)
 	c05DivZero(p, r, m)
 	c05ToString(p, r, m)
+	c05ConverterSiblings(p, r, m)
 }
 
 // intKindGuards counts dominating edges `isIntKind(x)` (wantTrue) / its negation that control block b.
@@ -686,4 +687,58 @@ func c05ToString(p *Program, r *Report, m *vmModel) {
 		bad = "non-string operands are not formatted with fmt.Sprint"
 	}
 	r.Check(bad == "", "C05.R5", funcName(toStr)+"|default formatting", p.Pos(toStr.Pos()), "strings pass through, everything else is fmt.Sprint of the value", bad)
+}
+
+// c05ConverterSiblings (R6): the conversion helpers of the tower (value -> int64 / int / float64 with an error result) are
+// siblings: they unwrap pointers and interfaces alike and handle the same set of kinds; a kind handled by one and forgotten by
+// another makes the same operand a number in one operator and an error (or zero) in the next.
+func c05ConverterSiblings(p *Program, r *Report, m *vmModel) {
+	type conv struct {
+		fn    *ssa.Function
+		kinds map[int64]bool
+	}
+	var convs []conv
+	for _, fn := range m.fns {
+		sg := fn.Signature
+		if sg.Recv() != nil || sg.Params().Len() != 1 || sg.Results().Len() != 2 || !isReflectValue(sg.Params().At(0).Type()) || !isErrorType(sg.Results().At(1).Type()) || len(fn.Blocks) == 0 {
+			continue
+		}
+		bt, ok := sg.Results().At(0).Type().(*types.Basic)
+		if !ok || bt.Info()&types.IsNumeric == 0 {
+			continue
+		}
+		ks := map[int64]bool{}
+		for _, b := range fn.Blocks {
+			for _, in := range b.Instrs {
+				if v, ok := in.(ssa.Value); ok {
+					if k, K := kindCmp(v); k != nil {
+						ks[K] = true
+					}
+				}
+			}
+		}
+		convs = append(convs, conv{fn, ks})
+	}
+	if len(convs) < 2 {
+		r.Undecided("C05.R6", "numeric converters", "vm", fmt.Sprintf("expected the family of value -> number converters, found %d", len(convs)))
+		return
+	}
+	sort.Slice(convs, func(i, j int) bool { return convs[i].fn.Name() < convs[j].fn.Name() })
+	union := map[int64]bool{}
+	for _, c := range convs {
+		for k := range c.kinds {
+			union[k] = true
+		}
+	}
+	for _, c := range convs {
+		var missing []string
+		for k := range union {
+			if !c.kinds[k] {
+				missing = append(missing, kindName(k))
+			}
+		}
+		sort.Strings(missing)
+		r.Check(len(missing) == 0, "C05.R6", c.fn.Name()+"|handles the kinds its siblings handle", p.Pos(c.fn.Pos()), fmt.Sprintf("%d kinds, like the other converters", len(c.kinds)),
+			fmt.Sprintf("%s does not handle %v, which the other numeric converters do: a value of that kind is a number for one operator and an error (or zero) for another", c.fn.Name(), missing))
+	}
 }
